@@ -138,11 +138,11 @@ def template(draw, aligned_only=False):
 
 
 @st.composite
-def program(draw, max_len=14, aligned_only=False, ops=None):
+def program(draw, max_len=14, aligned_only=False, ops=None, min_len=1):
     parts = draw(st.lists(st.one_of(instruction(ops, aligned_only).map(lambda i: [i]),
                                     instruction(ops, aligned_only).map(lambda i: [i]),
                                     instruction(ops, aligned_only).map(lambda i: [i]),
-                                    template(aligned_only)), min_size=1, max_size=max_len))
+                                    template(aligned_only)), min_size=min_len, max_size=max_len))
     prog = [i for p in parts for i in p]
     return prog[: max_len + 6]
 
@@ -180,7 +180,15 @@ def init_mem(draw, bases=(B, B + 64, T - 64)):
     return mem
 
 
-def program_case(max_len=14, aligned_only=False, ops=None):
+def program_case(max_len=14, aligned_only=False, ops=None, min_len=1):
     return st.builds(lambda p, r, m: {"prog": p, "regs": r, "mem": m},
-                     program(max_len, aligned_only, ops),
+                     program(max_len, aligned_only, ops, min_len),
                      init_regs_aligned() if aligned_only else init_regs(), init_mem())
+
+
+MEM_HEAVY_OPS = (rv32.LOAD_OPS + rv32.STORE_OPS) * 4 + ["sw", "sw", "lw", "lw"] * 3 + rv32.ALL_OPS
+
+
+def mem_heavy_case(max_len=16):
+    """Aligned-access programs dominated by loads/stores (for cache properties)."""
+    return program_case(max_len, aligned_only=True, ops=MEM_HEAVY_OPS, min_len=min(8, max_len))
